@@ -547,17 +547,17 @@ func (e *explorer) eval(v ssa.Value, st *pstate, fr *frame) aval {
 		case token.GEQ:
 			return kbool(a.i >= b.i)
 		case token.ADD:
-			return kint(a.i + b.i)
+			return kint(wrapTo(x.Type(), a.i + b.i))
 		case token.SUB:
-			return kint(a.i - b.i)
+			return kint(wrapTo(x.Type(), a.i - b.i))
 		case token.MUL:
-			return kint(a.i * b.i)
+			return kint(wrapTo(x.Type(), a.i * b.i))
 		case token.AND:
 			return kint(a.i & b.i)
 		case token.OR:
 			return kint(a.i | b.i)
 		case token.SHL:
-			return kint(a.i << uint(b.i))
+			return kint(wrapTo(x.Type(), a.i << uint(b.i)))
 		case token.SHR:
 			return kint(a.i >> uint(b.i))
 		}
@@ -598,6 +598,21 @@ func (e *explorer) eval(v ssa.Value, st *pstate, fr *frame) aval {
 		return kstr("global:" + x.Name())
 	}
 	return unk()
+}
+
+// wrapTo applies the wrap-around of fixed-width unsigned types.
+func wrapTo(t types.Type, v int64) int64 {
+	if b, ok := t.Underlying().(*types.Basic); ok {
+		switch b.Kind() {
+		case types.Uint8:
+			return v & 0xff
+		case types.Uint16:
+			return v & 0xffff
+		case types.Uint32:
+			return v & 0xffffffff
+		}
+	}
+	return v
 }
 
 // allocEscapes: the cell's address is used for anything but loads, stores and
